@@ -256,4 +256,39 @@ example : s3Stage exTree3 [] = true := by
     boundsEq, satMul, satAdd, sureReps, UNSET, Assertion.isHard, wrapPosLook, posLookBodyPc, pushLiteral, wellShaped, wellShapedAll,
     noBareEndZ, noBareEndZAll, progDelegOK, slotsBelow, slotsBelowAll]
 
+/-! ### Non-vacuity: look-behinds over an alternation body, all four layouts of the compiler -/
+/-- `(?<=a|bb)c`: alternatives of different sizes — an atomic group around an alternation of look-behinds -/
+def exBehindAltDiff : Expr :=
+  .concat [.look (.alt [.literal ['a'] false, .concat [.literal ['b'] false, .literal ['b'] false]]) .behind,
+    .literal ['c'] false]
+/-- `(?<!a|b)c`: alternatives of one size — the ordinary layout around the (delegated) alternation -/
+def exBehindNegAltConst : Expr :=
+  .concat [.look (.alt [.literal ['a'] false, .literal ['b'] false]) .behindNeg, .literal ['c'] false]
+/-- `(?<=a|b)c` -/
+def exBehindAltConst : Expr :=
+  .concat [.look (.alt [.literal ['a'] false, .literal ['b'] false]) .behind, .literal ['c'] false]
+/-- `(?<!a|bb)c`: a sequence of negative look-behinds -/
+def exBehindNegAltDiff : Expr :=
+  .concat [.look (.alt [.literal ['a'] false, .concat [.literal ['b'] false, .literal ['b'] false]]) .behindNeg,
+    .literal ['c'] false]
+/-- `(?<=\ba|bb)c`, `(?<=\ba|b)c`: a hard alternative (atomic layout, alternation compiled for the VM) -/
+def exBehindAltHardDiff : Expr :=
+  .concat [.look (.alt [.concat [.assertion .wordB, .literal ['a'] false],
+    .concat [.literal ['b'] false, .literal ['b'] false]]) .behind, .literal ['c'] false]
+def exBehindAltHardConst : Expr :=
+  .concat [.look (.alt [.concat [.assertion .wordB, .literal ['a'] false], .literal ['b'] false]) .behind,
+    .literal ['c'] false]
+
+set_option linter.unusedSimpArgs false in
+example : s3Stage exBehindAltDiff [] = true ∧ s3Stage exBehindNegAltConst [] = true ∧
+    s3Stage exBehindAltConst [] = true ∧ s3Stage exBehindNegAltDiff [] = true ∧
+    s3Stage exBehindAltHardDiff [] = true ∧ s3Stage exBehindAltHardConst [] = true := by
+  simp [s3Stage, build, exBehindAltDiff, exBehindNegAltConst, exBehindAltConst, exBehindNegAltDiff, exBehindAltHardDiff,
+    exBehindAltHardConst, wrapTree, renumber, renumberList, checkRefs, checkRefsList, isHard, isHardAny,
+    compile, visit, visitMiddle, visitAlt, visitAltBody, lookBehindAlts, lookBehindNegAlts, concatSplit, groupCount, groupCountList,
+    constSize, constSizeAll, minSize, minSizeMin, minSizeSum, allMinSize, compileDelegates, compileDelegate, isLiteral, isLiteralAll,
+    s3ok, s3okAll, s3okAlts, condFree, condFreeAll, boundsEq, satMul, satAdd, sureReps, UNSET, Assertion.isHard, wrapPosLook,
+    posLookBodyPc, wrapNegLook, negLookBodyPc, pushLiteral, pushLiteralAll, wellShaped, wellShapedAll,
+    noBareEndZ, noBareEndZAll, progDelegOK, slotsBelow, slotsBelowAll]
+
 end Fancy
